@@ -12,28 +12,56 @@ open Sbepp
 inductive Presence | required | optional | constant
   deriving DecidableEq, Repr, Inhabited
 
+/-- descriptive attributes every schema entity may carry (free text travels
+    hex-encoded as `x<hex of UTF-8>` atoms) -/
+structure Attrs where
+  description : String := ""
+  since : Nat := 0
+  deprecated : Option Nat := none
+  semanticType : String := ""
+  deriving Repr, Inhabited, DecidableEq
+
 structure TypeDef where
   name : String
   prim : String
   length : Nat
   presence : Presence
   offset : Option Nat
+  minValue : Option String := none
+  maxValue : Option String := none
+  nullValue : Option String := none
+  constValue : Option String := none
+  valueRef : Option String := none
+  characterEncoding : Option String := none
+  attrs : Attrs := {}
+  deriving Repr, Inhabited
+
+structure ValidValue where
+  name : String
+  value : String
+  attrs : Attrs := {}
+  deriving Repr, Inhabited
+
+structure Choice where
+  name : String
+  index : Nat
+  attrs : Attrs := {}
   deriving Repr, Inhabited
 
 inductive Elem
   | type (t : TypeDef)
-  | composite (name : String) (offset : Option Nat) (elems : List Elem)
-  | ref (name : String) (type : String) (offset : Option Nat)
-  | enum (name : String) (encType : String) (offset : Option Nat)
-  | set (name : String) (encType : String) (offset : Option Nat)
+  | composite (name : String) (offset : Option Nat) (elems : List Elem) (attrs : Attrs := {})
+  | ref (name : String) (type : String) (offset : Option Nat) (attrs : Attrs := {})
+  | enum (name : String) (encType : String) (offset : Option Nat) (values : List ValidValue := []) (attrs : Attrs := {})
+  | set (name : String) (encType : String) (offset : Option Nat) (choices : List Choice := []) (attrs : Attrs := {})
   deriving Repr, Inhabited
 
 def Elem.name : Elem → String
   | .type t => t.name
-  | .composite n _ _ => n
-  | .ref n _ _ => n
-  | .enum n _ _ => n
-  | .set n _ _ => n
+  | .composite n _ _ _ => n
+  | .ref n _ _ _ => n
+  | .enum n _ _ _ _ => n
+  | .set n _ _ _ _ => n
 
 structure FieldDef where
   name : String
@@ -41,17 +69,20 @@ structure FieldDef where
   type : String
   offset : Option Nat
   presence : Presence
+  valueRef : Option String := none
+  attrs : Attrs := {}
   deriving Repr, Inhabited
 
 structure DataDef where
   name : String
   id : Nat
   type : String
+  attrs : Attrs := {}
   deriving Repr, Inhabited
 
 inductive GroupDef
   | mk (name : String) (id : Nat) (dimType : String) (blockLength : Option Nat)
-       (fields : List FieldDef) (groups : List GroupDef) (datas : List DataDef)
+       (fields : List FieldDef) (groups : List GroupDef) (datas : List DataDef) (attrs : Attrs := {})
   deriving Repr, Inhabited
 
 structure MessageDef where
@@ -61,12 +92,15 @@ structure MessageDef where
   fields : List FieldDef
   groups : List GroupDef
   datas : List DataDef
+  attrs : Attrs := {}
   deriving Repr, Inhabited
 
 structure SchemaDef where
   package : String
   id : Nat
   version : Nat
+  semanticVersion : String := ""
+  description : String := ""
   byteOrder : ByteOrder
   headerType : String
   types : List Elem
@@ -81,11 +115,28 @@ def parsePresence (s : Option String) : Presence :=
   | some "constant" => .constant
   | _ => .required
 
+/-- text attribute: `x<hex of UTF-8 bytes>` -/
+def textField? (e : SExp) (key : String) : Option String :=
+  match e.atomField? key with
+  | some a =>
+    if a.startsWith "x" then
+      (SExp.unhex (a.drop 1).toString).bind (fun bs =>
+        String.fromUTF8? (ByteArray.mk (bs.map (fun b => b.toUInt8)).toArray))
+    else none
+  | none => none
+
+def parseAttrs (e : SExp) : Attrs :=
+  { description := (textField? e "desc").getD "", since := (e.natField? "since").getD 0,
+    deprecated := e.natField? "deprecated", semanticType := (textField? e "semanticType").getD "" }
+
 def parseType (e : SExp) : Option TypeDef := do
   let name ← e.atomField? "name"
   let prim ← e.atomField? "prim"
   some { name, prim, length := (e.natField? "length").getD 1,
-         presence := parsePresence (e.atomField? "presence"), offset := e.natField? "offset" }
+         presence := parsePresence (e.atomField? "presence"), offset := e.natField? "offset",
+         minValue := textField? e "min", maxValue := textField? e "max", nullValue := textField? e "null",
+         constValue := textField? e "const", valueRef := textField? e "valueRef",
+         characterEncoding := textField? e "charEnc", attrs := parseAttrs e }
 
 partial def parseElem (e : SExp) : Option Elem := do
   match e.head? with
@@ -93,38 +144,48 @@ partial def parseElem (e : SExp) : Option Elem := do
   | some "composite" =>
     let name ← e.atomField? "name"
     let elems ← (e.listField "elems").mapM parseElem
-    some (.composite name (e.natField? "offset") elems)
-  | some "ref" => some (.ref (← e.atomField? "name") (← e.atomField? "type") (e.natField? "offset"))
-  | some "enum" => some (.enum (← e.atomField? "name") (← e.atomField? "enc") (e.natField? "offset"))
-  | some "set" => some (.set (← e.atomField? "name") (← e.atomField? "enc") (e.natField? "offset"))
+    some (.composite name (e.natField? "offset") elems (parseAttrs e))
+  | some "ref" => some (.ref (← e.atomField? "name") (← e.atomField? "type") (e.natField? "offset") (parseAttrs e))
+  | some "enum" =>
+    let values := (e.listField "values").filterMap (fun v => do
+      some { name := ← v.atomField? "name", value := (textField? v "value").getD "", attrs := parseAttrs v })
+    some (.enum (← e.atomField? "name") (← e.atomField? "enc") (e.natField? "offset") values (parseAttrs e))
+  | some "set" =>
+    let choices := (e.listField "choices").filterMap (fun v => do
+      some { name := ← v.atomField? "name", index := (v.natField? "index").getD 0, attrs := parseAttrs v })
+    some (.set (← e.atomField? "name") (← e.atomField? "enc") (e.natField? "offset") choices (parseAttrs e))
   | _ => none
 
 def parseField (e : SExp) : Option FieldDef := do
   some { name := ← e.atomField? "name", id := (e.natField? "id").getD 0, type := ← e.atomField? "type",
-         offset := e.natField? "offset", presence := parsePresence (e.atomField? "presence") }
+         offset := e.natField? "offset", presence := parsePresence (e.atomField? "presence"),
+         valueRef := textField? e "valueRef", attrs := parseAttrs e }
 
 def parseData (e : SExp) : Option DataDef := do
-  some { name := ← e.atomField? "name", id := (e.natField? "id").getD 0, type := ← e.atomField? "type" }
+  some { name := ← e.atomField? "name", id := (e.natField? "id").getD 0, type := ← e.atomField? "type",
+         attrs := parseAttrs e }
 
 partial def parseGroup (e : SExp) : Option GroupDef := do
   let fields ← (e.listField "fields").mapM parseField
   let groups ← (e.listField "groups").mapM parseGroup
   let datas ← (e.listField "datas").mapM parseData
   some (.mk (← e.atomField? "name") ((e.natField? "id").getD 0) (← e.atomField? "dim")
-    (e.natField? "blockLength") fields groups datas)
+    (e.natField? "blockLength") fields groups datas (parseAttrs e))
 
 def parseMessage (e : SExp) : Option MessageDef := do
   let fields ← (e.listField "fields").mapM parseField
   let groups ← (e.listField "groups").mapM parseGroup
   let datas ← (e.listField "datas").mapM parseData
   some { name := ← e.atomField? "name", id := (e.natField? "id").getD 0,
-         blockLength := e.natField? "blockLength", fields, groups, datas }
+         blockLength := e.natField? "blockLength", fields, groups, datas, attrs := parseAttrs e }
 
 def parseSchema (e : SExp) : Option SchemaDef := do
   let types ← (e.listField "types").mapM parseElem
   let messages ← (e.listField "messages").mapM parseMessage
   some { package := (e.atomField? "package").getD "", id := (e.natField? "id").getD 0,
          version := (e.natField? "version").getD 0,
+         semanticVersion := (textField? e "semanticVersion").getD "",
+         description := (textField? e "desc").getD "",
          byteOrder := if e.atomField? "byteOrder" = some "bigEndian" then .big else .little,
          headerType := (e.atomField? "headerType").getD "messageHeader", types, messages }
 
